@@ -319,6 +319,13 @@ def structural_issue(entry):
         bold = [i for i, (_, b) in enumerate(entry["doc_args"]) if b]
         if bold != written:
             issues.append(f"bold (modified) argument in the documentation {bold} != written argument {written}")
+    # nothing after the loop may touch an argument, except the global sum of a reduction under DM
+    for si, (dm, _) in enumerate(X.SETTINGS):
+        var = e_args[entry["doc"][1]] if (e_args := entry["args"]) else None
+        expect = [f"global_sum%value = {var}", f"{var} = global_sum%get_sum()"] if (dm and entry["is_reduction"]) else []
+        assigns = [l for l in entry["after_loop"][si] if not l.upper().startswith("CALL ") and "=" in l]
+        if [X._norm_f(l) for l in assigns] != [X._norm_f(l) for l in expect]:
+            issues.append(f"statements after the DoF loop (dm={dm}): {assigns} expected {expect}")
     return issues
 
 
@@ -346,7 +353,9 @@ def run(chk):
         "Python twin evaluator (compared with the Lean driver on every case)"]
 
     ok = chk.lean(gen=gen)
+    chk.cov["lean_s_including_lock_wait_and_extraction"] = round(time.time() - t0, 1)
     entries = extract()
+    chk.cov["generated_theorems"] = 7 * len(entries) + 1
     chk.cov["builtins"] = len(entries)
     chk.cov["extract_s"] = _STATE.get("extract_s")
     chk.cov["doc_parse"] = [{"builtin": e["case_name"], "rst": e["doc_text"], "signature": e["doc_sig"],
@@ -452,6 +461,27 @@ def run(chk):
     chk.cov["check_s"] = round(time.time() - t0, 1)
 
 
+def reprod_ok(e, r, si):
+    """Reproducible OpenMP reduction: per-thread partial sums `l_s(1,th_idx)` (zeroed), same summand, then
+    `s = s + l_s(1,th_idx)` over the threads."""
+    nf = X._norm_f
+    var = e["args"][e["doc"][1]]
+    base = e["code_text"][si]
+    prefix = f"{var} = {var} + "
+    if not base.startswith(prefix) or len(r["body_text"]) != 1:
+        return False
+    summand = base[len(prefix):]
+    lines = [nf(l) for l in r["code_lines"]]
+    want_body = nf(f"l_{var}(1,th_idx) = l_{var}(1,th_idx) + {summand}")
+    zero = any(re.fullmatch(nf(f"l_{var}=") + r"0(\.0*)?(_\w+)?", l) for l in lines)
+    try:
+        k = lines.index(nf(f"{var} = {var}+l_{var}(1,th_idx)"))
+    except ValueError:
+        return False
+    in_loop = k > 0 and re.fullmatch(r"doth_idx=1,\w+", lines[k - 1]) is not None and lines[k + 1] == "enddo"
+    return nf(r["body_text"][0]) == want_body and zero and in_loop
+
+
 def omp_check(chk, entries, names=None):
     """OpenMP-parallelised variants: same statement, same bounds, reduction clause for reductions."""
     issue = None
@@ -467,7 +497,9 @@ def omp_check(chk, entries, names=None):
             n_ok = 0
             for e, r in zip(entries, recs):
                 base = e["codes"][si]
-                body_ok = (r["body"] == base["body"]) or (mode == "do-reprod" and e["is_reduction"])
+                body_ok = r["body"] == base["body"]
+                if mode == "do-reprod" and e["is_reduction"]:
+                    body_ok = reprod_ok(e, r, si)
                 ub_ok = r["ub"] == e["ubs"][si]
                 omp = " ".join(r["omp_lines"]).lower()
                 red_ok = True
